@@ -364,7 +364,7 @@ fn apply_inner(
     let region = filter
         .rect()
         .transform(ts)
-        .map(|r| r.to_int_rect())
+        .and_then(crate::geom::to_int_rect)
         .ok_or(Error::InvalidRegion)?;
 
     #[cfg(resvg_verif)]
@@ -387,7 +387,7 @@ fn apply_inner(
         let mut subregion = primitive
             .rect()
             .transform(ts)
-            .map(|r| r.to_int_rect())
+            .and_then(crate::geom::to_int_rect)
             .ok_or(Error::InvalidRegion)?;
 
         // `feOffset` inherits its region from the input.
